@@ -1,7 +1,7 @@
 """C13 - idle tunnels are closed after the configured timeout (wiring clauses)."""
 import re
 
-from ..flow import bool_branch, edge_dominates, flow_forward
+from ..flow import bool_branch, edge_dominates, flow_forward, must_pass
 from ..mir import op_base, op_place, op_const, const_int, short, rv_operands
 from .panics import resolve_place, pretty_sig
 
@@ -13,7 +13,8 @@ EXPLANATION = (
     "directions' statistics with the same duration, and is_timeout returns false for a zero duration; (3) incr_sent_bytes/incr_sent_frames "
     "store last_read. Wall-clock accuracy is not decided."
     ' defaults: for every field of config::Timeouts the fallback of the derived Deserialize for an absent key returns the same constant as impl Default for Timeouts.'
-    ' every path from set_feature(Udp*) to enqueue passes set_idle_timeout(timeouts.udp).')
+    ' every path from set_feature(Udp*) to enqueue passes set_idle_timeout(timeouts.udp).'
+    ' unit: the clock helper and is_timeout use the same Duration accessor; is_timeout(0) is false (stated as an implication of the is_zero edge).')
 RULE_TEXT = "instances = links of the configuration chain, guard edges of the closing condition"
 TRUSTED = ["tokio interval ticks roughly once per second", "system clock"]
 NOT_DECIDED = ["wall-clock accuracy (within the period plus granularity)"]
@@ -131,7 +132,46 @@ def rule_defaults(chk, prog):
     chk.floor("defaults", nf, 2, "fields of config::Timeouts")
 
 
+
+_UNIT = re.compile(r"core::time::Duration::(as_secs|as_millis|as_micros|as_nanos|as_secs_f32|as_secs_f64|subsec_millis|subsec_micros|subsec_nanos)$")
+
+
+def rule_units(chk, prog, rule="unit"):
+    """The idle test compares `now - last activity` with the configured period: both sides are numbers, the unit is a convention between
+    the clock helper (UnixTimestamp::unix_timestamp) and ContextStatistics::is_timeout.  The Duration accessor that turns the period into
+    a number in is_timeout is the same one the clock helper applies to the time since the epoch (as_millis on both sides today); a clock
+    in seconds against a period in milliseconds stretches every idle period a thousandfold."""
+    ts = [f for f in prog.fns.values() if f.crate == "redproxy_rs" and re.search(r"UnixTimestamp( for [^>]+)?>::unix_timestamp$", f.path)]
+    it = prog.find(r"^context::ContextStatistics::is_timeout$", "redproxy_rs")
+    if len(ts) < 1 or len(it) != 1:
+        chk.anchor_missing(rule, "UnixTimestamp::unix_timestamp / ContextStatistics::is_timeout")
+        return
+    clock = set()
+    for f in ts:
+        for c in f.calls:
+            m = _UNIT.search(c.path or "")
+            if m:
+                clock.add(m.group(1))
+    g = it[0]
+    period = set()
+    for c in g.calls:
+        m = _UNIT.search(c.path or "")
+        if m:
+            period.add(m.group(1))
+    uses_clock = any(re.search(r"unix_timestamp$", c.path or c.name or "") for c in g.calls)
+    ok = len(clock) == 1 and clock == period and uses_clock
+    why = "clock in %s, period in %s" % (sorted(clock), sorted(period))
+    chk.instance(rule, "%s:%s" % (g.file, g.line), "is_timeout compares clock and period in the same unit", ok, why)
+    if not ok:
+        chk.finding(rule, g.key, "clock-vs-period", "", "%s:%s" % (g.file, g.line),
+                    "ContextStatistics::is_timeout compares a difference of unix_timestamp() values with the period converted by another "
+                    "accessor (%s): every idle period is scaled by the ratio of the two units, so silent tunnels are closed far too late "
+                    "(or far too early)" % why)
+
+
+
 def run(chk, prog):
+    rule_units(chk, prog)
     rule_defaults(chk, prog)
     m = prog.body_of(prog.one(r"^main$"))
     # ---------------------------------------------------------------- (1a) def-use order in main
@@ -271,9 +311,14 @@ def run(chk, prog):
     ok = False
     if len(z) == 1:
         for (sb, tt, ft) in bool_branch(isf, z[0].dest[0]):
-            for (b, i, rv) in isf.defs.get(0, []):
-                if i != "term" and rv["k"] == "use" and const_int(rv["a"]) == 0 and edge_dominates(isf, sb, tt, b):
-                    ok = True
+            # on the `is zero` edge the result is false: every definition of the return value reachable from that edge is the constant
+            # false, and no return is reached without passing one (the edge need not dominate the assignment: after combinators are
+            # rewritten the `false` of `map_or(false, ..)` is shared with other paths)
+            region = isf.reach_from([tt])
+            defs0 = [(b, i, rv) for (b, i, rv) in isf.defs.get(0, []) if b in region]
+            all_false = bool(defs0) and all(i != "term" and rv["k"] == "use" and const_int(rv["a"]) == 0 for (b, i, rv) in defs0)
+            if all_false and must_pass(isf, [tt], [b for (b, i, rv) in defs0], isf.returns()):
+                ok = True
     chk.instance("closing", "%s:%s" % (isf.file, isf.line), "is_timeout(0) is false (0 disables the idle timeout)", ok)
     if not ok:
         chk.finding("closing", isf.key, "zero-disables", "", "%s:%s" % (isf.file, isf.line), "is_timeout no longer returns false for a zero duration")
